@@ -143,7 +143,8 @@ def build_cases(ctx, pks, res):
         if not rs["b"]["ok"]:
             # the package cannot be generated even one type at a time: not this property's business
             res.hist("skipped", "generation-fails-per-type")
-            res.advisory.append({"case": pk["id"], "keys": ["per-type generation fails: " + rs["b"]["runs"][-1]["stderr"][-200:]]})
+            bad = [x for x in rs["b"]["runs"] if x["rc"] != 0][0]
+            res.advisory.append({"case": pk["id"], "keys": ["per-type generation fails: shoot %s: %s" % (" ".join(bad["args"]), bad["stderr"][-300:])]})
             continue
         cmdline = lambda v: " && ".join("shoot " + " ".join(a) for a in pk["variants"][v])
         src = json.dumps(pk["files"])
